@@ -35,13 +35,24 @@ def findings():
         for f in json.load(open(PENDING_FINDINGS)):
             if f.get("property") == "C19" and f["id"] not in have:
                 fs.append(f)
-    if os.environ.get("VERIF_C19_IGNORE_FINDINGS"):      # self-test of the violation path only
-        return []
+    ign = os.environ.get("VERIF_C19_IGNORE_FINDINGS")    # self-test of the violation path only: "all" or ids
+    if ign:
+        fs = [] if ign == "all" else [f for f in fs if f["id"] not in ign.split(",")]
     return fs
 
 
-def norm_count(count):
-    return min(count if count != 0 else 10, 1000)
+def scan_cfg():
+    """The loop constants as the translator extracted them: ((default, cap, factor), recognised?).
+    When the source is no longer recognised the last known constants are used for the search."""
+    src = open(os.path.join(LEAN, "FerrousSpec", "Gen", "ScanConsts.lean")).read()
+    m = re.search(r"def scanCfg : Ferrous\.Scan\.Cfg := ⟨(\d+), (\d+), (\d+)⟩", src)
+    if m:
+        return (int(m.group(1)), int(m.group(2)), int(m.group(3))), True
+    return (10, 1000, 10), False
+
+
+def norm_count(count, cfg=(10, 1000, 10)):
+    return min(count if count != 0 else cfg[0], cfg[1])
 
 
 # ------------------------------------------------------------------ reference glob (cross-check of Spec)
@@ -244,6 +255,9 @@ class C19:
         self.rep = rep
         self.impl = LineProc([os.environ.get("VERIF_C19_IMPL", os.path.join(IMPL_BIN, "impl_scan"))], "impl-scan")
         self.model = lean_driver("scan")
+        self.cfg = scan_cfg()
+        if self.model.ask("cfg %d %d %d" % self.cfg[0]) != "ok":
+            raise InternalError("Lean driver refused the scan constants")
         self.findings = findings()
         self.oracle_failures = []     # (shape, what, desc, detail)
         self.disagreements = []
@@ -364,7 +378,7 @@ class C19:
         kind, cnt = desc["kind"], desc["count"]
         pat = unhx(desc["pattern"]) if desc["pattern"] is not None else None
         ty = unhx(desc["type"]) if desc["type"] is not None else None
-        mx = norm_count(cnt)
+        mx = norm_count(cnt, self.cfg[0])
         self.setup("reset")
         truth = {}
         for name_hex, aux in desc["initial"]:
@@ -424,9 +438,6 @@ class C19:
             returned.append([n for n, _ in items])
             if nxt == 0:
                 break
-            # ---- progress / termination, judged on the implementation's reply
-            if calls - 1 < len(desc["steps"]) and any(op[0] == "add" for op in desc["steps"][calls - 1]):
-                pass
             cursors.append(nxt)
             cursor = nxt
             if calls - 1 < len(desc["steps"]):
@@ -450,8 +461,6 @@ class C19:
         if ended:
             for k in stable:
                 if k in got or not self.wants(pat, k):
-                    if pat is not None and k in got is False:
-                        pass
                     continue
                 if pat is not None:
                     implv, codev, specv = self.glob(pat, k)
@@ -524,8 +533,21 @@ class C19:
         for _ in range(n):
             args = list(r.choice(heads))
             args.append(r.choice([b"0", b"0", b"0", b"1", b"2", b"5", b"-1", b"x", b"", b"+0", b"18446744073709551615", b"18446744073709551616"]))
-            for _ in range(r.range(0, 4)):
-                args.append(r.choice(toks))
+            if r.chance(1, 2):
+                # mostly well-formed options in random order, with repeats (the last one wins)
+                for _ in range(r.range(0, 4)):
+                    o = r.below(4)
+                    if o == 0:
+                        args += [rand_case(r, "match").encode(), r.choice([b"*", b"a*", b"[ab]", b"?", b"", b"c"])]
+                    elif o == 1:
+                        args += [rand_case(r, "count").encode(), r.choice([b"0", b"1", b"2", b"3", b"10", b"+2", b"1000", b"18446744073709551615"])]
+                    elif o == 2:
+                        args += [rand_case(r, "type").encode(), r.choice([b"string", b"set", b"String", b""])]
+                    else:
+                        args += [rand_case(r, "novalues").encode()]
+            else:
+                for _ in range(r.range(0, 4)):
+                    args.append(r.choice(toks))
             if r.chance(1, 10):
                 args = args[:r.range(1, len(args))]
             line = "cmd " + "|".join(hx(x) for x in args)
@@ -587,7 +609,7 @@ class C19:
         ir = r.fork("iterations")
         regimes = ["fixed", "adds", "dels", "both", "both", "both"]
         n = 0
-        for rnd in range(5 * scale):
+        for rnd in range(16 * scale):
             for count in COUNTS:
                 for regime in regimes:
                     desc = gen_desc(ir, count, regime)
